@@ -226,9 +226,11 @@ func lexTwig(src string) []string {
 }
 
 var hostileTokens = []string{"{%", "-%}", "%}", "{{", "}}", "{{-", "(", ")", "|", "=", "in", "as", "with", "import", "endverbatim", "\x00", "\xff", "'", "\"", "[", "{", ",", ".", "~", "?", ":", "is", "not",
-	"endfor", "endif", "else", "elseif", "endblock", "endmacro", "only", "ignore", "missing", "sandboxed", "extends", "include", "from", "macro", "block", "set", "do", "apply", "verbatim", "spaceless", "-", "\\", "#}", "{#", "é", "99999", "1e3", "..", "||", "&&", "??", "'a\\'", "\"b\\\"", "'\\'", "\\'", "'x\\\\'", "1e", "2E", "3e+", "4e-", "5.", ".5", "1.e1", "0x", "1_0"}
+	"endfor", "endif", "else", "elseif", "endblock", "endmacro", "only", "ignore", "missing", "sandboxed", "extends", "include", "from", "macro", "block", "set", "do", "apply", "verbatim", "spaceless", "-", "\\", "#}", "{#", "é", "99999", "1e3", "..", "||", "&&", "??", "'a\\'", "\"b\\\"", "'\\'", "\\'", "'x\\\\'", "1e", "2E", "3e+", "4e-", "5.", ".5", "1.e1", "0x", "1_0",
+	// spellings other template dialects give a meaning to (interpolation, arrow functions, spread, null-safe access)
+	"\"#{\"", "\"a #{ b\"", "\"#{x}\"", "'#{'", "#{", "=>", "...", "?.", "?:", "**", "//", "<=>", "b-and", "not in", "is not", "@ns/x", "{{ \"#{ \" }}", "{% if a == \"#{\" %}"}
 
-const c05SrcRule = "sources derived from generated templates (control flow, inheritance, includes, macros, apply/spaceless) by mutation of a coarse token stream: every prefix, every single-token deletion, duplication and adjacent swap, and replacement of each token by one of 60 hostile tokens (delimiters, keywords, quotes, NUL, 0xFF, huge numbers); each mutant is parsed and rendered with the other templates of the set loadable and a context of many Go value shapes, under recover and a 5 s watchdog, followed by a canary; non-trivial = the mutant contains at least one tag delimiter (it reaches the parser past tokenisation); distinct by mutant source. Excluded by construction: a template that can reach itself by name, self-recursive macros (a mutation can delete the terminating condition), panicking user callbacks"
+const c05SrcRule = "sources derived from generated templates (control flow, inheritance, includes, macros, apply/spaceless) by mutation of a coarse token stream: every prefix, every single-token deletion, duplication and adjacent swap, and replacement of each token by one of 90 hostile tokens (delimiters, keywords, quotes, NUL, 0xFF, huge numbers); each mutant is parsed and rendered with the other templates of the set loadable and a context of many Go value shapes, under recover and a 5 s watchdog, followed by a canary; non-trivial = the mutant contains at least one tag delimiter (it reaches the parser past tokenisation); distinct by mutant source. Excluded by construction: a template that can reach itself by name, self-recursive macros (a mutation can delete the terminating condition), panicking user callbacks"
 
 func c05Ctx(t *rapid.T, base Ctx) Ctx {
 	c := Ctx{Names: append([]string{}, base.Names...), Vals: append([]*E{}, base.Vals...)}
